@@ -349,6 +349,10 @@ def offVoice (sustain : Bool) (cc : ChipCh) (midCh key : Nat) : ChipCh × Bool :
     let r := findOrCreateUser cc midCh key
     ((if r.2 then modUser r.1 midCh key fun d => { d with sus := d.sus ||| 1 } else r.1), false)
 
+/-- the guard of the Upd_Pitch branch of noteUpdate: the frequency of a voice is rewritten unless its user is a released
+    note that the damper pedal holds (bit 0); a sostenuto mark (bit 1) on a key that is still down does not stop it -/
+def pitchApplies (d : Option User) : Bool := match d with | none => true | some u => u.sus % 2 == 0
+
 /-- OPNMIDIplay::noteUpdate -/
 def noteUpdate (midCh key : Nat) (props : Nat) (select : Option Nat := none) : M Unit := do
   let ch ← getMidi midCh
@@ -402,8 +406,7 @@ def noteUpdate (midCh key : Nat) (props : Nat) (select : Option Nat := none) : M
           let chNow ← getMidi midCh
           let cc ← getChip c
           let d := cc.users.find? (·.isLoc midCh key)
-          let go := match d with | none => true | some u => u.sus % 2 == 0
-          if go then
+          if pitchApplies d then
             let nNow := (findNote chNow key).getD info
             chipNoteOn c (voiceTone chNow nNow ph d)
   let chEnd ← getMidi midCh
